@@ -16,7 +16,8 @@ inputs `p : Parsed`, all option settings `o : Opts`, every IDNA decoder `puny`, 
   `normalize_path_sublist`;
 * query: `normalize_query_sublist`;
 * options: `option_*_off` (one per documented option);
-* `normalize_unparseable_identity`, `normalize_total`;
+* `normalize_unparseable_identity`; that the function never raises: `Props/C05Total.lean`
+  (`normalize_never_raises`, on the model with an explicit exception channel);
 * `platform_aware=True`: `normalize_platform_partial` (hypothesis: the platform branch leaves
   the string alone) — the full statement `FullPlatform` is false (`fullPlatform_false`).
 -/
@@ -361,24 +362,24 @@ def finQsl (o : Opts) (l : List QItem) : List QItem :=
 def dropsItem (puny : Str → Str) (o : Opts) (p : Parsed) (it : QItem) : Prop :=
   shouldStripQueryItem o.normalizeAmp o.queryItemFilter (domainFilter (filterHost puny p)) it = true
 
-/-- **the query is the input's items minus irrelevant ones, keys and values untouched**: the
-result items are the final (un)quoting of `ordered`, a permutation — the identity when
-`sort_query` is off — of `kept`, which is the list of unescaped input items minus items that
-all satisfy `shouldStripQueryItem`.  Through the documented API (`lowercase = false`) the
-final unquoting changes nothing (`unquoteQsl ordered = ordered`): in unquoted mode the result
-items *are* `ordered`, in quoted mode their quoted form. -/
-theorem normalize_query_sublist (puny : Str → Str) (o : Opts) (hp : Bool) (p : Parsed) :
-    ∃ kept ordered,
-      DelSub (dropsItem puny o p) (inputItems o p) kept ∧
-      ordered.Perm kept ∧ (o.sortQuery = false → ordered = kept) ∧
+/-- the items the filter keeps: the unescaped input items that `should_strip_query_item` does not
+strip, in order -/
+def keptItems (puny : Str → Str) (o : Opts) (p : Parsed) : List QItem :=
+  (inputItems o p).filter fun it =>
+    !shouldStripQueryItem o.normalizeAmp o.queryItemFilter (domainFilter (filterHost puny p)) it
+
+/-- **the query, exactly**: the result items are the final (un)quoting of `ordered`, a permutation
+— the identity when `sort_query` is off — of `keptItems`: EVERY input item that
+`should_strip_query_item` does not strip is kept, every one it strips is dropped.  Through the
+documented API (`lowercase = false`) the final unquoting changes nothing. -/
+theorem normalize_query_filter (puny : Str → Str) (o : Opts) (hp : Bool) (p : Parsed) :
+    ∃ ordered,
+      ordered.Perm (keptItems puny o p) ∧ (o.sortQuery = false → ordered = keptItems puny o p) ∧
       (normComps puny o hp p).qsl = finQsl o ordered ∧
       (o.lowercase = false → unquoteQsl ordered = ordered) := by
   let P := fun it => !shouldStripQueryItem o.normalizeAmp o.queryItemFilter (domainFilter (filterHost puny p)) it
   let kept := (inputItems o p).filter P
   let ordered := if o.sortQuery then sortQsl kept else kept
-  have hdel : DelSub (dropsItem puny o p) (inputItems o p) kept := by
-    have := DelSub.filter P (inputItems o p)
-    exact this.mono (fun a h => by simpa [P, dropsItem] using h)
   have hperm : ordered.Perm kept := by
     show (if o.sortQuery then sortQsl kept else kept).Perm kept
     split
@@ -400,8 +401,8 @@ theorem normalize_query_sublist (puny : Str → Str) (o : Opts) (hp : Bool) (p :
         simp [kept, inputItems, he]
       rw [hk]
       rfl
-  refine ⟨kept, ordered, hdel, hperm, ?_, ?_, ?_⟩
-  · intro hs; simp [ordered, hs]
+  refine ⟨ordered, hperm, ?_, ?_, ?_⟩
+  · intro hs; simp [ordered, hs, kept, keptItems, P]
   · have : (normComps puny o hp p).qsl =
         (if o.quoted then quoteQsl (unquoteQsl (filterQuery o (filterHost puny p) (fixedQuery o p)))
          else unquoteQsl (filterQuery o (filterHost puny p) (fixedQuery o p))) := rfl
@@ -416,6 +417,24 @@ theorem normalize_query_sublist (puny : Str → Str) (o : Opts) (hp : Bool) (p :
     split at h2
     · simp at h2
     · simpa using h2
+
+/-- **the query is the input's items minus irrelevant ones, keys and values untouched**: the
+result items are the final (un)quoting of `ordered`, a permutation — the identity when
+`sort_query` is off — of `kept`, which is the list of unescaped input items minus items that
+all satisfy `shouldStripQueryItem`.  Through the documented API (`lowercase = false`) the
+final unquoting changes nothing (`unquoteQsl ordered = ordered`): in unquoted mode the result
+items *are* `ordered`, in quoted mode their quoted form. -/
+theorem normalize_query_sublist (puny : Str → Str) (o : Opts) (hp : Bool) (p : Parsed) :
+    ∃ kept ordered,
+      DelSub (dropsItem puny o p) (inputItems o p) kept ∧
+      ordered.Perm kept ∧ (o.sortQuery = false → ordered = kept) ∧
+      (normComps puny o hp p).qsl = finQsl o ordered ∧
+      (o.lowercase = false → unquoteQsl ordered = ordered) := by
+  obtain ⟨ordered, h1, h2, h3, h4⟩ := normalize_query_filter puny o hp p
+  refine ⟨keptItems puny o p, ordered, ?_, h1, h2, h3, h4⟩
+  have := DelSub.filter (fun it => !shouldStripQueryItem o.normalizeAmp o.queryItemFilter
+    (domainFilter (filterHost puny p)) it) (inputItems o p)
+  exact this.mono (fun a h => by simpa [dropsItem] using h)
 
 /-- in particular (documented API, unquoted mode, `sort_query` off) the result items are a
 subsequence of the unescaped input items -/
@@ -441,14 +460,6 @@ theorem normalize_unparseable_identity (puny : Str → Str) (parse : Str → Opt
     normalizeUrl puny parse platform o ir url = url ∧
     normalizeUrlSplit puny parse platform o ir url = .inl url := by
   simp [normalizeUrl, normalizeUrlSplit, h]
-
-/-- **totality**: the model of `normalize_url` has no error value — on every string, with
-every option setting, parser answer and decoder, it returns a string (the original one when
-the parser raises, `normalize_unparseable_identity`) -/
-theorem normalize_total (puny : Str → Str) (parse : Str → Option Parsed) (platform : Str → Str)
-    (o : Opts) (ir : Bool) (url : Str) :
-    (∃ s : Str, normalizeUrl puny parse platform o ir url = s) ∧
-    (∃ r : Str ⊕ Split, normalizeUrlSplit puny parse platform o ir url = r) := ⟨⟨_, rfl⟩, ⟨_, rfl⟩⟩
 
 /-- a parseable input goes through the component rules and `urlunsplit` -/
 theorem normalize_parseable (puny : Str → Str) (parse : Str → Option Parsed)
@@ -632,8 +643,11 @@ theorem option_strip_fragment_off (puny : Str → Str) (o : Opts) (hp : Bool) (p
     exact this
 
 /-- `normalize_amp` off: no AMP marker is removed from the path, the host keeps a leading
-`amp-` and its `amp` labels (`hostDel_no_amp`), the AMP query keys are not in the filter;
-scheme, userinfo, port and fragment do not change -/
+`amp-` and its `amp` labels (`hostDel_no_amp`), the AMP query keys are not in the filter — the
+items are exactly the input items `should_strip_query_item(…, normalize_amp=False)` does not strip,
+i.e. the pattern is `IRRELEVANT_QUERY_RE` and `AMP_QUERY_COMBOS` is not consulted
+(`Props/C05More.lean`: `amp_off_strips_less`, the AMP keys are kept) —; scheme, userinfo, port and
+fragment do not change -/
 theorem option_normalize_amp_off (puny : Str → Str) (o : Opts) (hp : Bool) (p : Parsed) :
     let A := normComps puny { o with normalizeAmp := false } hp p
     let B := normComps puny { o with normalizeAmp := true } hp p
@@ -641,8 +655,13 @@ theorem option_normalize_amp_off (puny : Str → Str) (o : Opts) (hp : Bool) (p 
     (∃ p3 p4 pre t, (p3 = resolvedPath o p.path ∨
         (o.stripIndex = true ∧ IndexCut (resolvedPath o p.path) p3)) ∧
       (p4 = p3 ∨ (p3 = ['/'] ∧ p4 = [])) ∧ p4 = pre ++ t ∧ (∀ c ∈ t, c = '/') ∧ A.path = finPath o pre) ∧
-    (∀ h, p.hostname = some h → h ≠ [] → ∃ h', A.host = some h' ∧ HostDel puny false h h') := by
-  refine ⟨rfl, rfl, rfl, rfl, rfl, ?_, ?_⟩
+    (∀ h, p.hostname = some h → h ≠ [] → ∃ h', A.host = some h' ∧ HostDel puny false h h') ∧
+    (∃ ordered, A.qsl = finQsl o ordered ∧
+      ordered.Perm ((inputItems o p).filter fun it =>
+        !shouldStripQueryItem false o.queryItemFilter (domainFilter (filterHost puny p)) it) ∧
+      (o.sortQuery = false → ordered = (inputItems o p).filter fun it =>
+        !shouldStripQueryItem false o.queryItemFilter (domainFilter (filterHost puny p)) it)) := by
+  refine ⟨rfl, rfl, rfl, rfl, rfl, ?_, ?_, ?_⟩
   · obtain ⟨p2, p3, p4, pre, t, _, h2, h3, h4, ⟨h5, h6, _⟩, h7⟩ :=
       normalize_path_deletion puny { o with normalizeAmp := false } hp p
     have := h2 rfl
@@ -650,6 +669,8 @@ theorem option_normalize_amp_off (puny : Str → Str) (o : Opts) (hp : Bool) (p 
     exact ⟨p3, p4, pre, t, h3, h4, h5, h6, h7⟩
   · intro h hh hne
     exact normalize_host_deletion_only puny { o with normalizeAmp := false } hp p h hh hne
+  · obtain ⟨ordered, h1, h2, h3, _⟩ := normalize_query_filter puny { o with normalizeAmp := false } hp p
+    exact ⟨ordered, h3, h1, h2⟩
 
 /-- the query reaches the path only through the root rule -/
 theorem normPath_query (o : Opts) (path f qa qb : Str) :
@@ -664,9 +685,10 @@ theorem normPath_query (o : Opts) (path f qa qb : Str) :
       cases hs : o.stripTrailingSlash <;> simp [endsWith, rstripChars]
   · left; simp [h3]
 
-/-- `fix_common_mistakes` off: the query is split as written; scheme, userinfo, host, port and
-fragment do not change, the path at most by the root rule (which asks whether the query is
-empty) -/
+/-- `fix_common_mistakes` off: the query is split as written — the result items are the
+unescaped items of `p.query` itself (no `&amp;` repair) that the filter does not strip, sorted
+under `sort_query` —; scheme, userinfo, host, port and fragment do not change, the path at most
+by the root rule (which asks whether the query is empty) -/
 theorem option_fix_common_mistakes_off (puny : Str → Str) (o : Opts) (hp : Bool) (p : Parsed) :
     let A := normComps puny { o with fixCommonMistakes := false } hp p
     let B := normComps puny { o with fixCommonMistakes := true } hp p
@@ -674,9 +696,27 @@ theorem option_fix_common_mistakes_off (puny : Str → Str) (o : Opts) (hp : Boo
     A.scheme = B.scheme ∧ A.user = B.user ∧ A.pass = B.pass ∧ A.host = B.host ∧ A.port = B.port ∧
     A.fragment = B.fragment ∧
     (A.path = B.path ∨ ((A.path = finPath o ['/'] ∧ B.path = finPath o []) ∨
-      (A.path = finPath o [] ∧ B.path = finPath o ['/']))) := by
-  refine ⟨by simp [fixedQuery], rfl, rfl, rfl, rfl, rfl, rfl, ?_⟩
-  exact normPath_query o p.path _ _ _
+      (A.path = finPath o [] ∧ B.path = finPath o ['/']))) ∧
+    (let items := if p.query.isEmpty then []
+        else if o.lowercase then (unquoteQsl (safeQslIter p.query)).map lowerItem
+        else unquoteQsl (safeQslIter p.query)
+     ∃ ordered, A.qsl = finQsl o ordered ∧
+      ordered.Perm (items.filter fun it =>
+        !shouldStripQueryItem o.normalizeAmp o.queryItemFilter (domainFilter (filterHost puny p)) it) ∧
+      (o.sortQuery = false → ordered = items.filter fun it =>
+        !shouldStripQueryItem o.normalizeAmp o.queryItemFilter (domainFilter (filterHost puny p)) it)) := by
+  refine ⟨by simp [fixedQuery], rfl, rfl, rfl, rfl, rfl, rfl, ?_, ?_⟩
+  · exact normPath_query o p.path _ _ _
+  · obtain ⟨ordered, h1, h2, h3, _⟩ :=
+      normalize_query_filter puny { o with fixCommonMistakes := false } hp p
+    have e : keptItems puny { o with fixCommonMistakes := false } p =
+        (if p.query.isEmpty then []
+          else if o.lowercase then (unquoteQsl (safeQslIter p.query)).map lowerItem
+          else unquoteQsl (safeQslIter p.query)).filter fun it =>
+        !shouldStripQueryItem o.normalizeAmp o.queryItemFilter (domainFilter (filterHost puny p)) it := by
+      simp [keptItems, inputItems, fixedQuery]
+    rw [e] at h1 h2
+    exact ⟨ordered, h3, h1, h2⟩
 
 /-- `infer_redirection` off: the argument itself is cleaned and parsed -/
 theorem option_infer_redirection_off (platform : Str → Str) (url : Str) :
